@@ -127,6 +127,15 @@ type VC struct {
 	preludeAt int
 	heapGen int
 	dryDepth int
+	loopStack []*loopSnap
+	cbVars map[string]*types.Var
+	owned []Term
+	freshResult map[string]bool
+	nonEscaping map[*types.Var]bool
+}
+
+type loopSnap struct {
+	before, head *State
 }
 
 type ghostSig struct {
@@ -139,7 +148,7 @@ func newVC(eng *Engine, u *Unit) *VC {
 		counters: map[string]int{}, heap0: map[string]Term{}, heapSorts: map[string]string{}, cellVars: map[*types.Var]bool{},
 		ghostDeclared: map[string]bool{}, ghostSorts: map[string]*ghostSig{}, axiomsDone: map[*Clause]bool{},
 		usedFiles: map[*ContractFile]bool{}, pureDeclared: map[string]bool{},
-		assumptions: map[string]bool{}, uncontracted: map[string]bool{}, calledAssumed: map[string]bool{}}
+		assumptions: map[string]bool{}, uncontracted: map[string]bool{}, calledAssumed: map[string]bool{}, freshResult: map[string]bool{}, nonEscaping: map[*types.Var]bool{}}
 	return vc
 }
 
